@@ -1025,17 +1025,36 @@ class TrimBase(NumModel):
     def spec_array(self, a):
         return z3.If(a.use_abs, a._B, a._A)
 
+    quantified = True  # pre-conditions as quantified formulas (needed to establish the callee pre-conditions)
+
+    def pre_instance(self, a, k):
+        """instance at index k of the quantified pre-conditions: definition of |s|, non-negative, sorted descending"""
+        n, A, B, SA = a._n, a._A, a._B, self.spec_array(a)
+        k = Z(k)
+        return And(B[k] == If(A[k] >= 0, A[k], -A[k]),
+                   Implies(And(0 <= k, k < n), And(SA[k] >= 0, SA[0] >= SA[k])),
+                   Implies(And(0 <= k, k + 1 < n), SA[k] >= SA[k + 1]))
+
     def requires(self, a, case):
+        """pre-condition: len(s) >= 1; max_bond = -1 or >= 1; the spectrum the rule looks at (|s| if use_abs else s) is
+        non-negative and sorted descending; non-zero (s_0 > 0) when renormalisation is requested; U has len(s) columns
+        and VH len(s) rows.  With ``quantified = False`` the array conditions are given through their instances at the
+        indices the proof mentions (0 here, N-1, N and the skolem index in trim_post): a weaker assumption, hence sound,
+        and quantifier-free so that failed obligations come with models."""
         n, A, B, ua = a._n, a._A, a._B, a.use_abs
+        SA = self.spec_array(a)
         d = {"len>=1": n >= 1, "max_bond-domain": Or(a.max_bond == -1, a.max_bond >= 1),
-             # definition of the ghost array |s| (leaf np.abs / xp.abs: elementwise)
-             "def-abs": z3.ForAll([_i], B[_i] == If(A[_i] >= 0, A[_i], -A[_i]), patterns=[B[_i]]),
              # shapes: U has len(s) columns, VH has len(s) rows; slicing up to the full extent is the identity
-             "def-slice-full": And(colslice(a.U, n) == a.U, rowslice(a.VH, n) == a.VH)}
-        for X, g, nm in ((B, ua, "abs"), (A, Not(ua), "plain")):
-            d[f"nonneg-{nm}"] = Implies(g, nonneg(X, n))
-            d[f"sorted-{nm}"] = Implies(g, sorted_desc(X, n))
-            d[f"nonzero-{nm}"] = Implies(And(g, P.num_cmp(">", a.renorm, 0)), X[0] > 0)
+             "def-slice-full": And(colslice(a.U, n) == a.U, rowslice(a.VH, n) == a.VH),
+             "nonzero": Implies(P.num_cmp(">", a.renorm, 0), SA[0] > 0)}
+        if self.quantified:
+            # definition of the ghost array |s| (leaf np.abs / xp.abs: elementwise)
+            d["def-abs"] = z3.ForAll([_i], B[_i] == If(A[_i] >= 0, A[_i], -A[_i]), patterns=[B[_i]])
+            for X, g, nm in ((B, ua, "abs"), (A, Not(ua), "plain")):
+                d[f"nonneg-{nm}"] = Implies(g, nonneg(X, n))
+                d[f"sorted-{nm}"] = Implies(g, sorted_desc(X, n))
+        else:
+            d["pre@0"] = self.pre_instance(a, 0)
         if not isinstance(a.renorm, int):
             d["renorm-domain"] = a.renorm >= 3
         if not isinstance(a.cutoff_mode, int):
@@ -1071,7 +1090,12 @@ class TrimBase(NumModel):
         dyn = Or(cutoff > 0, P.num_cmp(">", renorm, 0))
         cap = lambda x: If(mb > 0, Min(x, mb), x)
         capped = And(mb > 0, N == mb)
-        # ---- instances of definitions / proved lemmas at the indices the clauses mention
+        # ---- instances of the pre-condition, of definitions and of proved lemmas at the indices the clauses mention
+        for k in (N - 1, N, JSK):
+            cx.assume(self.pre_instance(a, k))
+        for name in ("abs", "rel"):
+            if mode_is(mode, name) is not False:  # lemma count-boundary (premise: sorted): 0 <= count <= n, boundary at j
+                cx.assume(Implies(mode_is(mode, name), lem_count_boundary(SA, rule_threshold(SA, cutoff, name), n, JSK)))
         for p in (1, 2):
             for k in (N, N - 1):
                 cx.assume(lem_split(SA, p, n, k))  # lemma split-sum
@@ -1161,6 +1185,7 @@ class TrimNumba(TrimBase):
 class TrimGeneric(TrimBase):
     target = f"{DEC}::_trim_and_renorm_svd_result"
     mode_cases = MODE_NAMES
+    quantified = False
 
     def inputs(self, cx, case):
         d = self.common_inputs(cx, case)
